@@ -82,7 +82,7 @@ def _int_twin(c, kwargs, rng=None):
 
     for k, v in kwargs.items():
         ty = str((c.types or {}).get(k, "")).replace(" ", "")
-        if k in (c.modifies or []):
+        if k in (c.modifies or []) or k in getattr(c, "no_int_twin_params", ()):
             tw[k] = v.copy() if isinstance(v, np.ndarray) else v
             continue
         if isinstance(v, np.ndarray) and v.dtype.kind == "f" and ty.startswith("real[") and v.size and np.all(np.isfinite(v)) \
